@@ -1155,7 +1155,8 @@ fn run_conc() {
     let params = Params::from_args_env();
     let mut rep = Report::new("C20", &params);
     let mut rng = Rng::new(params.seed ^ 0xC20C);
-    let n = params.n(1500, 60000);
+    // `histories=N` caps the run (Miri executes a few histories per process)
+    let n = params.get_u64("histories", params.n(1500, 60000));
     for hist_idx in 0..n {
         if !rep.in_budget() {
             break;
